@@ -95,6 +95,14 @@ def check_graph(ctx, G, tag, key, groups, perms=None, light=False):
             if not (s1 == s2 == s3):
                 ctx.violation("signature-not-deterministic", {**wit, "backend": backend}, f"{backend}: repeated signature calls differ {s1} {s2} {s3}")
         if not light:
+            # an identically configured canonicaliser built *now* (after all back-ends have been used in this process)
+            # answers like the one built at start-up
+            from synkit.Graph.canon_graph import GraphCanonicaliser
+            s5 = GraphCanonicaliser(backend=backend).canonical_signature(G)
+            ctx.count("fresh_vs_startup_canonicaliser_checked")
+            if s5 != s1:
+                ctx.violation("signature-not-deterministic", {**wit, "backend": backend, "history": "canonicaliser built after other back-ends were used"},
+                              f"{backend}: a canonicaliser constructed later in the process gives another signature than the identically configured one built at start-up")
             # the same labelled graph (same node ids) built in another insertion / edge order is the same graph
             Gs, _ = WG.scramble(G, rng, ids=list(G.nodes))
             ctx.count("same_ids_other_insertion_order_checked")
@@ -300,6 +308,8 @@ def two_order_complete_family(quick):
 def run(ctx):
     rng = ctx.rng
     groups = {}
+    for b_ in BACKENDS:
+        canon(b_)          # all long-lived canonicalisers exist before the first canonicalisation of this process
     for t, (name, G) in enumerate(two_order_complete_family(ctx.quick).items()):
         if ctx.mine(t) and not ctx.out_of_time(0.5):
             nodes = sorted(G.nodes)
